@@ -6,8 +6,10 @@ complex-rational values).  After every step the complete `np.shares_memory` rela
 relative offsets), the dtype, the member identities and the values read through every handle
 are compared.  Monitor: the property statements themselves, evaluated on the real objects at
 the level of memory addresses (independent of the model)."""
+import collections
 import logging
 import operator
+import os
 from fractions import Fraction
 
 import numpy as np
@@ -22,22 +24,35 @@ REQUIRED_THEOREMS = [
     "wf_run", "inv_run", "new_collection_linked", "collection_layout_slots", "component_view",
     "component_write_seen_in_field", "member_write_seen_in_collection", "disjoint_forever",
     "frame_disjoint", "views_stable",
+    # clause (a) `data` is a live view; component views over histories; tensor components row-major;
+    # operator results / footprint; values of copies (with the dtype conversion)
+    "data_is_live_view", "dataLive_run", "component_alias_history", "tensor_component_view",
+    "apply_operator_footprint", "copy_reads_equal", "views_stable_run",
+    "inplace_scalar_values", "binop_scalar_values",
 ]
 RULE = ("random operation histories (5-40 operations: construction of scalar/vector/tensor fields, "
-        "writes through data/_data_full, marker writes of single cells, boundary-condition ghost writes, "
-        "component views, FieldCollection with/without copy_fields (also duplicates, explicit dtype, "
-        "from_data, re-linking of members of older collections), slices, append, copy, negation, binary "
-        "and in-place arithmetic with fields/collections/scalars, differential operators, derived fields, "
-        "MemoryStorage append/read, and a malformed stream whose expected outcome is an error class) over "
-        "1-3d Cartesian, polar, spherical and cylindrical grids and dtypes f64/f32/c128/c64/i64; a history "
-        "is distinct by its (grids, operation list) and non-trivial if at some step two different handles "
-        "shared memory and a write through one handle changed what is read through another")
+        "writes through data/_data_full/fc[k]/fc[label]/vector[c]=, marker writes of single cells, boundary-condition "
+        "ghost writes, component views, FieldCollection with/without copy_fields (also duplicates, explicit dtype, "
+        "from_data, re-linking of members of older collections), slices, append, copy, deep copy, pickle, negation, "
+        "binary and in-place arithmetic with fields/collections/scalars, differential operators (scipy backend, "
+        "compiled numba backend, and the Python source of the numba backend on every grid class in "
+        "NUMBA_DISABLE_JIT=1 interpreters), derived fields, MemoryStorage append/read/slice/iteration, and a "
+        "malformed stream whose expected outcome is an error class) over 1-3d Cartesian, polar, spherical and "
+        "cylindrical grids and dtypes f64/f32/c128/c64/i64; half of the histories run with numba's JIT, half with "
+        "NUMBA_DISABLE_JIT=1 (the mode is part of the case); a history is distinct by its (grids, mode, operation "
+        "list) and non-trivial if at some step two different handles shared memory and a write through one handle "
+        "changed what is read through another")
 ASSUMPTIONS = [
     "numpy view semantics (a basic slice/reshape of an ndarray is a view; np.array(list) allocates) are trusted",
-    "values are kept exactly representable (24-bit dyadic) by the generator so that all dtypes compare exactly",
-    "labels are not modelled; lookup by label is checked directly against lookup by index",
+    "values of valid cells are kept exactly representable (24-bit dyadic) by the generator so that arithmetic in every "
+    "dtype is exact; dtype conversions of whole padded arrays (copy(dtype=), collection arrays) are performed by the "
+    "model as numpy performs them (round to nearest even in single precision, real part for real dtypes)",
+    "labels are not modelled; lookup and assignment by label are checked directly against lookup by index",
     "a member field handed to a later FieldCollection(copy_fields=False) is re-linked to that collection "
-    "(documented); member<->collection aliasing is demanded for the collection that linked the member last",
+    "(documented: 'basically impossible to have fields that are linked to multiple collections at the same "
+    "time'); member<->collection aliasing is demanded for the collection that linked the member last",
+    "vector/tensor fields on a SphericalSymGrid are handed to differential operators only if they satisfy the "
+    "documented precondition of those operators (no angular components at valid cells)",
 ]
 TRUSTED_EXTRA = ["np.shares_memory and ndarray.__array_interface__ as the definition of the real aliasing relation"]
 
@@ -182,6 +197,10 @@ def classify(e):
     return f"other:{name}:{msg[:100]}"
 
 
+RELINK_DETACH = ("component view taken before FieldCollection(copy_fields=False) re-linked its field no longer "
+                 "aliases the field")
+
+
 class Skip(Exception):
     """the proposed operation is not applicable in the current world (guard failed)"""
 
@@ -255,6 +274,18 @@ def wide_result(bop, A, B, n=2):
     return W, bool(ok and nice(W))
 
 
+def scrub_numpy_cache():
+    """Fill the blocks numpy keeps for re-use (its cache of small data blocks: 7 per size below 1 KiB)
+    with the byte 0x5A.  py-pde allocates padded arrays with `np.empty`; what their ghost cells hold
+    before anybody writes them is whatever the previous owner of the block left there - after a run
+    of the same script in the same process (shrinking!) that is the very value a defective write
+    would store, and the write goes unnoticed.  Together with MALLOC_PERTURB_=165 in the environment
+    of the worker interpreters (glibc fills every block it hands out with 0x5A) never-written cells
+    start every history with the same, impossible content."""
+    keep = [np.full(n, 0x5A, dtype=np.uint8) for n in range(4, 1024, 4) for _ in range(8)]
+    del keep
+
+
 class World:
     """real objects + bookkeeping; `apply(opdesc)` executes one operation on the real code, records
     the corresponding model operation(s), the observation and evaluates the monitors"""
@@ -262,6 +293,7 @@ class World:
     def __init__(self, gspecs, monitors=True):
         import pde
         logging.getLogger("pde").setLevel(logging.ERROR)
+        scrub_numpy_cache()
         self.pde = pde
         self.gspecs = gspecs
         self.grids = [make_grid(s) for s in gspecs]
@@ -283,6 +315,7 @@ class World:
         self.unexpected = None
         self.cur_kind = None
         self.member_ids = {}   # collection id -> ids of its member objects at creation
+        self.skips = collections.Counter()   # proposals that were not applicable (guard failed), by operation kind
 
     # ---- handles ---------------------------------------------------------------------------
     def rid(self, name):
@@ -393,13 +426,17 @@ class World:
             changed[i] = {"dt": dt, "size": a.size, "contig": bool(a.flags.c_contiguous), "vals": flat,
                           "members": self.members(i) if self.cls[i] == "coll" else [],
                           "cls": self.cls[i], "grid": self.gid[i]}
-        return {"err": err, "n": n, "pairs": pairs, "dbad": dbad, "root": rootlab, "changed": changed,
+        stale = [i for i in range(n) if self.cls[i] != "raw" and not self.data_is_live(i)]
+        return {"err": err, "n": n, "pairs": pairs, "dbad": dbad, "root": rootlab, "changed": changed, "stale": stale,
                 "model_idx": len(self.model_ops) - 1, "nchanged_old": nchanged_old}
 
     # ---- monitors (direct statements of the property on the real objects) -------------------------
-    def check_frame(self, n_old, allowed, moved, what):
+    def check_frame(self, n_old, allowed, moved, what, failed=None):
         """cells changed by the operation lie inside `allowed` (byte addresses); handles not in
-        `moved` still look at the same memory; moved handles read the same values"""
+        `moved` still look at the same memory; moved handles read the same values.  `failed`: the
+        operation raised this error class - then nothing at all may have changed (no partial write)"""
+        outside = ("memory outside the cells the operation may write was changed" if failed is None else
+                   "memory was changed although the operation raised an error")
         allowed = np.unique(np.concatenate([np.asarray(a, np.int64).ravel() for a in allowed])) if allowed else np.zeros(0, np.int64)
         for i in range(n_old):
             old, odt, oaddr = self.prev[i]
@@ -422,8 +459,8 @@ class World:
             bad = ch[~np.isin(ch, allowed)]
             if bad.size:
                 pos = np.nonzero(neq)[0][~np.isin(ch, allowed)]
-                self.fail(f"{what}: memory outside the cells the operation may write was changed",
-                          {"handle": i, "cls": self.cls[i], "positions": pos[:8].tolist(),
+                self.fail(f"{what}: {outside}",
+                          {"handle": i, "cls": self.cls[i], "raised": failed, "positions": pos[:8].tolist(),
                            "is_valid_cell": self.mask_of(i)[pos[:8]].tolist(),
                            "before": [str(x) for x in old[pos[:4]]], "after": [str(x) for x in flat[pos[:4]]]})
 
@@ -438,12 +475,17 @@ class World:
                               {"new": j, "new_cls": self.cls[j], "old": i, "old_cls": self.cls[i]})
                     break
 
+    def data_is_live(self, i):
+        """`obj.data` is the view of the valid cells of `obj._data_full` (same memory, shape, strides, dtype)"""
+        o = self.objs[i]
+        d, e = o.data, o._data_full[valid_idx(o.grid)]
+        return bool(addr(d) == addr(e) and d.shape == e.shape and d.strides == e.strides and d.dtype == e.dtype)
+
     def check_data_view(self):
         for i, o in enumerate(self.objs):
             if self.cls[i] == "raw":
                 continue
-            d, e = o.data, o._data_full[valid_idx(o.grid)]
-            if not (addr(d) == addr(e) and d.shape == e.shape and d.strides == e.strides and d.dtype == e.dtype):
+            if not self.data_is_live(i):
                 self.fail("data is not the live view of the valid cells of _data_full", {"handle": i, "cls": self.cls[i]})
 
     def slots(self, ci):
@@ -509,17 +551,27 @@ class World:
                 except Exception:  # noqa: BLE001
                     pass
 
-    def check_component(self, ci, write_test):
-        pi, c, paddr = self.comp[ci]
-        if addr(self.full(pi)) != paddr:
-            return  # the parent was re-linked after the component was taken
+    def component_aliases(self, ci):
+        """the literal clause: the component view `ci` looks at exactly the memory of component `c`
+        of its field (same dtype, address, shape, strides)"""
+        pi, c, _ = self.comp[ci]
         comp, par = self.objs[ci], self.objs[pi]
         pf = par._data_full.reshape((-1,) + full_shape(par.grid))
         cf = comp._data_full
-        if not (cf.dtype == pf.dtype and np.shares_memory(cf, pf) and addr(cf) == addr(pf[c]) and cf.shape == pf[c].shape
-                and cf.strides == pf[c].strides):
+        return bool(cf.dtype == pf.dtype and np.shares_memory(cf, pf) and addr(cf) == addr(pf[c])
+                    and cf.shape == pf[c].shape and cf.strides == pf[c].strides)
+
+    def check_component(self, ci, write_test):
+        """component views alias their component of the field - judged for every component view
+        that was ever taken, after every operation (no exemption when the field moved)"""
+        pi, c, paddr = self.comp[ci]
+        comp, par = self.objs[ci], self.objs[pi]
+        pf = par._data_full.reshape((-1,) + full_shape(par.grid))
+        cf = comp._data_full
+        if not self.component_aliases(ci):
             self.fail("component view does not alias the component of its field",
                       {"component": ci, "parent": pi, "c": c, "parent_dtype": str(pf.dtype),
+                       "parent_moved_since_component_was_taken": addr(self.full(pi)) != paddr,
                        "shares_memory": bool(np.shares_memory(cf, pf))})
             return
         if write_test:
@@ -554,6 +606,7 @@ class World:
                 out = getattr(self, "op_" + d["k"])(d)
         except Skip:
             del self.model_ops[n_model_old:]
+            self.skips[d["k"]] += 1
             return False
         except Unexpected as e:
             del self.model_ops[n_model_old:]
@@ -584,16 +637,32 @@ class World:
         if self.monitors:
             self.n_monitor += 1
             what = d["k"] + (":" + d["how"] if "how" in d else "")
-            moved = set(out.get("moved", ()))
-            self.check_frame(n_old, out.get("allowed") or [], moved if err is None else set(), what)
+            # an operation that raised must not have changed anything (the model: "an error leaves the
+            # state unchanged"): no cell is allowed, no handle may have moved
+            moved = set(out.get("moved", ())) if err is None else set()
+            self.check_frame(n_old, (out.get("allowed") or []) if err is None else [], moved, what, failed=err)
             if err is None:
                 fresh = [self.idmap[id(o)] for o in out.get("fresh", [])]
                 for j in list(fresh):
                     if self.cls[j] == "coll":
                         fresh += [m for m in self.members(j) if m is not None and m >= n_old]
                 self.check_fresh(n_old, sorted(set(fresh)), what, moved)
-                for i in moved:
-                    self.comp.pop(i, None)   # a re-linked component view is an ordinary member now
+                for ci in sorted(self.comp):
+                    pi, c, _ = self.comp[ci]
+                    if ci in moved:
+                        # the component view itself was handed to FieldCollection(copy_fields=False):
+                        # "the original fields are modified so their data points to the collection"
+                        # (documented for the very object that is passed) - an ordinary member now
+                        self.comp.pop(ci)
+                    elif pi in moved:
+                        # the FIELD was re-linked by FieldCollection(copy_fields=False); the statement
+                        # of C15 lets component views alias their field for all histories: judge the
+                        # literal clause, report it once, with its own narrow key
+                        if not self.component_aliases(ci):
+                            self.fail(RELINK_DETACH, {"component": ci, "parent": pi, "c": c, "relinked_by": what,
+                                                      "parent_cls": self.cls[pi], "parent_dtype": self.dtn(pi),
+                                                      "shares_memory": bool(np.shares_memory(self.full(ci), self.full(pi)))})
+                            self.comp.pop(ci)
                 if out.get("same") is not None and out["same"][0] is not out["same"][1]:
                     self.fail(f"{what}: in-place operation did not return the object itself", {})
             self.check_data_view()
@@ -637,12 +706,33 @@ class World:
         return V
 
     def converts_exactly(self, i, dt):
-        """every cell of handle i (also the ghost cells, whatever they hold) survives a conversion to dt"""
+        """every VALID cell of handle i survives a conversion to dt.  Ghost cells are deliberately not
+        looked at: cells nobody ever wrote hold whatever `np.empty` found in memory, and a decision that
+        depends on them makes the generated history (and the replay of a recorded one) depend on the
+        state of the allocator.  Ghost cells that were written (boundary conditions, `_data_full`) are
+        converted by the model as numpy converts them (`DCast`: rounding to single precision, real
+        part), so they compare exactly whatever they hold."""
         src = self.dtn(i)
         if src not in KIND:
             return False
         narrowing = KIND[dt] < KIND[src] or (dt in ("f32", "c64") and src not in ("f32", "c64"))
-        return not narrowing or nice(self.full(i), dt)
+        return not narrowing or nice(self.dat(i), dt)
+
+    def admissible(self, i):
+        """precondition of the differential operators of vector/tensor fields on a SphericalSymGrid
+        (pde/backends/numba/operators/spherical_sym.py:284,311,385,483-488,516-518,605-606,644-645:
+        `assert np.all(arr[1, 1:-1] == 0)` ...): components that cannot be expressed with spherical
+        symmetry vanish at the valid cells.  The strongest form is used (a superset of what every
+        single operator asks for): vectors have zero angular components; tensors are diagonal with
+        equal angular diagonal entries.  NaN-safe (`== 0` is False for NaN)."""
+        o = self.objs[i]
+        if type(o.grid).__name__ != "SphericalSymGrid" or self.cls[i] not in ("vector", "tensor"):
+            return True
+        dd = o.data
+        if self.cls[i] == "vector":
+            return bool(np.all(dd[1:] == 0))
+        off = [(a, b) for a in range(3) for b in range(3) if a != b]
+        return bool(all(np.all(dd[a, b] == 0) for a, b in off) and np.all(dd[1, 1] == dd[2, 2]))
 
     def ghost_addresses(self, i):
         return addresses(self.full(i)).ravel()[~self.mask_of(i)]
@@ -701,6 +791,17 @@ class World:
             ti = self.members(i)[k]
             if ti is None:
                 raise Skip()
+            key = k
+            if d.get("by_label"):
+                # `fc["label"] = value` writes the FIRST member with that label (collection.py:201-208)
+                lab = o.fields[k].label
+                if lab is None:
+                    raise Skip()
+                key = lab
+                k = next(n for n, f in enumerate(o.fields) if f.label == lab)
+                ti = self.members(i)[k]
+                if ti is None:
+                    raise Skip()
         else:
             ti = i
         t = self.objs[ti]
@@ -730,6 +831,16 @@ class World:
             if self.cls[j] == "raw" or self.cls[ti] == "coll" and self.cls[j] not in ("coll", "scalar"):
                 raise Skip()
             src = self.objs[j]
+            # guards BEFORE the real call: same grid, same class (collections: same member classes) or a
+            # scalar field - then `assert_field_compatible(value, accept_scalar=True)` accepts and the
+            # assignment is a valid operation; an error of the real code is a broken correspondence
+            if self.gid[j] != self.gid[ti]:
+                raise Skip()
+            if self.cls[ti] == "coll" and self.cls[j] == "coll" and (
+                    [self.kind_of(f) for f in t.fields] != [self.kind_of(f) for f in src.fields]):
+                raise Skip()
+            if self.cls[ti] != "coll" and self.cls[j] not in (self.cls[ti], "scalar"):
+                raise Skip()
             try:
                 data = np.broadcast_to(src.data, t.data.shape).copy()
             except ValueError:
@@ -737,10 +848,42 @@ class World:
             if not nice(data, self.dtn(ti)):
                 raise Skip()
             res, err = self.try_real(lambda: setattr(t, "data", src))
-            if err is not None and err.startswith("other"):
-                err = "classMismatch" if "incompatible" in err else err
             if err is not None:
-                raise Skip()   # compatibility errors of assignment are not modelled: undo nothing happened
+                raise Unexpected(f"`field.data = other_field` failed for compatible fields: {err}")
+        elif how == "comp_setitem":
+            # `vector[c] = value` / `tensor[i, j] = value`: `self.data[idx] = value` - valid cells of
+            # one component only (vectorial.py:181-188, tensorial.py:158-169)
+            if self.cls[ti] not in ("vector", "tensor"):
+                raise Skip()
+            dim = t.grid.dim
+            if self.cls[ti] == "vector":
+                c = d["c"] % dim
+                key = t.grid.axes[c] if d.get("by_name") and c < t.grid.num_axes else c
+                idx = (c,)
+            else:
+                a_, b_ = d["c"] % dim, (d["c"] // dim) % dim
+                key = (a_, b_)
+                idx = (a_, b_)
+            cur = np.array(t.data, copy=True)
+            if "src" in d:
+                j = self.rid(d["src"])
+                if self.cls[j] != "scalar" or self.gid[j] != self.gid[ti]:
+                    raise Skip()
+                value = self.objs[j]
+                cur[idx] = value.data
+            else:
+                value = scal(d["c_val"])
+                cur[idx] = value
+            if not nice(cur[idx], self.dtn(ti)) or not np.all(np.isfinite(np.asarray(cur).astype(np.complex128))):
+                raise Skip()
+            comp_cells = addresses(t.data[idx])
+            res, err = self.try_real(lambda: t.__setitem__(key, value))
+            if err is not None:
+                raise Unexpected(f"`field[component] = value` failed unexpectedly: {err}")
+            # model: a write of the valid cells; the other components are re-written with the values
+            # they hold (exact: every valid cell holds a value the model knows)
+            self.model_ops.append({"op": "writeData", "h": ti, "vals": enc_arr(self.expand_valid(ti, cur))})
+            return {"err": None, "allowed": [comp_cells], "write": True}
         else:
             if "vals" in d:
                 V = arr_from(d["vals"], -1)
@@ -751,7 +894,7 @@ class World:
                 raise Skip()
             data = V[valid_idx(t.grid)].copy()
             if how == "setitem":
-                res, err = self.try_real(lambda: o.__setitem__(k, data))
+                res, err = self.try_real(lambda: o.__setitem__(key, data))
             elif how == "data_scalar" and "c" in d:
                 c = scal(d["c"])
                 res, err = self.try_real(lambda: setattr(t, "data", c))
@@ -819,10 +962,13 @@ class World:
             res, err = self.try_real(lambda: o[key])
         else:
             a, b = d["c"] % dim, (d["c"] // dim) % dim
-            c = a * dim + b
+            c = a * dim + b     # (for the monitor: the property statement says row-major)
             key = (o.grid.axes[a], o.grid.axes[b]) if d.get("by_name") and max(a, b) < o.grid.num_axes else (a, b)
             res, err = self.try_real(lambda: o[key])
-        self.model_ops.append({"op": "component", "h": i, "c": c})
+        if self.cls[i] == "vector":
+            self.model_ops.append({"op": "component", "h": i, "c": c})
+        else:               # the model maps (i, j) to the block itself (`tensorSlot`)
+            self.model_ops.append({"op": "tcomponent", "h": i, "i": a, "j": b})
         if err is not None:
             return {"err": err}
         return {"err": None, "new": [res], "comps": [(res, i, c)]}
@@ -1086,10 +1232,12 @@ class World:
             raise Skip()
         if not nice(self.dat(i)):
             raise Skip()
+        if not self.admissible(i):
+            raise Skip()   # documented precondition of the spherically symmetric operators (see `admissible`)
         try:   # not every operator exists for every grid class on every backend
             from pde.backends import get_backend
             get_backend(backend).get_operator_info(o.grid, name)
-        except Exception:  # noqa: BLE001
+        except NotImplementedError:   # "Backend .. does not define operator .. for grid .." (backends/base.py:371-376)
             raise Skip() from None
         out = None
         if d.get("out") is not None:
@@ -1108,14 +1256,17 @@ class World:
         after = np.array(self.full(i), copy=True).ravel()
         if not np.all(np.isfinite(res.data.astype(np.complex128))):
             raise Unexpected("operator result is not finite")
-        self.model_ops.append(self.ghost_op(i, before, after))
+        mop = {"op": "applyOperator", "h": i, "ghosts": self.ghost_op(i, before, after)["vals"], "cls": out_cls,
+               "out": None}
         if out is not None:
             if res is not out:
                 self.fail("apply_operator(out=f) did not return f", {})
-            self.model_ops.append({"op": "writeData", "h": self.idmap[id(out)], "vals": enc_arr(self.expand_valid(self.idmap[id(out)], res.data))})
+            mop["out"] = self.idmap[id(out)]
+            mop["vals"] = enc_arr(self.expand_valid(self.idmap[id(out)], res.data))
+            self.model_ops.append(mop)
             return {"err": None, "allowed": allowed, "write": True}
-        n = len(self.objs)
-        self.model_ops.append(self.derived_op(out_cls, self.gid[i], self.dtn(i), res))
+        mop["vals"] = self.derived_op(out_cls, self.gid[i], self.dtn(i), res)["vals"]
+        self.model_ops.append(mop)
         return {"err": None, "new": [res], "fresh": [res], "allowed": allowed}
 
     def derived_op(self, cls, g, dt, res):
@@ -1161,12 +1312,11 @@ class World:
             if err is not None:
                 raise Unexpected(f"transpose failed unexpectedly: {err}")
             if what == "transpose":
-                self.model_ops.append({"op": "copy", "h": i, "dt": None})
-                self.model_ops.append({"op": "writeData", "h": len(self.objs), "vals": enc_arr(self.expand_valid(i, res.data))})
+                self.model_ops.append({"op": "applyFn", "h": i, "out": None, "vals": enc_arr(self.expand_valid(i, res.data))})
                 return {"err": None, "new": [res], "fresh": [res]}
             if res is not o:
                 self.fail("transpose(inplace=True) did not return the field itself", {})
-            self.model_ops.append({"op": "writeData", "h": i, "vals": enc_arr(self.expand_valid(i, res.data))})
+            self.model_ops.append({"op": "applyFn", "h": i, "out": i, "vals": enc_arr(self.expand_valid(i, res.data))})
             return {"err": None, "allowed": allowed, "write": True}
         elif what in ("apply", "apply_out"):
             W, ok = wide_result("mul", self.dat(i), 2)
@@ -1176,8 +1326,7 @@ class World:
                 res, err = self.try_real(lambda: o.apply(lambda x: 2 * x))
                 if err is not None:
                     raise Unexpected(f"apply failed unexpectedly: {err}")
-                self.model_ops.append({"op": "copy", "h": i, "dt": None})
-                self.model_ops.append({"op": "writeData", "h": len(self.objs), "vals": enc_arr(self.expand_valid(i, res.data))})
+                self.model_ops.append({"op": "applyFn", "h": i, "out": None, "vals": enc_arr(self.expand_valid(i, res.data))})
                 return {"err": None, "new": [res], "fresh": [res]}
             j = self.rid(d["out"])
             if self.cls[j] != self.cls[i] or self.gid[j] != g or KIND.get(self.dtn(j), -1) < KIND[self.dtn(i)]:
@@ -1189,7 +1338,7 @@ class World:
                 raise Unexpected(f"apply(out=) failed unexpectedly: {err}")
             if res is not out:
                 self.fail("apply(out=f) did not return f", {})
-            self.model_ops.append({"op": "writeData", "h": j, "vals": enc_arr(self.expand_valid(j, res.data))})
+            self.model_ops.append({"op": "applyFn", "h": i, "out": j, "vals": enc_arr(self.expand_valid(j, res.data))})
             return {"err": None, "allowed": allowed, "write": True}
         else:
             raise Skip()
@@ -1198,7 +1347,8 @@ class World:
         if not np.all(np.isfinite(res.data.astype(np.complex128))):
             raise Unexpected("derived result is not finite")
         # `cls(grid, data)` without dtype: the dtype is re-derived from the data (number_array)
-        self.model_ops.append(self.derived_op(spec[0], g, None, res))
+        dop = self.derived_op(spec[0], g, None, res)
+        self.model_ops.append({"op": "derive", "h": i, "cls": spec[0], "cplx": dop["cplx"], "vals": dop["vals"]})
         return {"err": None, "new": [res], "fresh": [res]}
 
     def op_storage(self, d):
@@ -1244,23 +1394,49 @@ class World:
                 S["frames"].append(self.idmap[id(frame)])
                 self.gid[self.idmap[id(frame)]] = self.gid[i]
             return {"err": None, "new": [frame], "fresh": [frame], "finish": finish}
-        if what == "read":
+        if what in ("read", "read_many"):
             if not S["frames"]:
                 raise Skip()
-            k = d["idx"] % len(S["frames"])
-            fi = S["frames"][k]
-            if KIND.get(self.dtn(fi), 9) > KIND.get(self.dtn(ti), -1) or not nice(self.full(fi), self.dtn(ti)):
+            nfr = len(S["frames"])
+            if what == "read":
+                ks = [d["idx"] % nfr]
+            elif d["how"] == "slice":      # `storage[i:j:k]`: a list of fields (storage/base.py:294-295)
+                ks = list(range(*slice(*d["sl"]).indices(nfr)))
+            else:                           # `list(storage)` / `list(storage.items())` (base.py:299-307)
+                ks = list(range(nfr))
+            if not ks:
                 raise Skip()
-            if self.cls[ti] == "coll" and (any(m is None for m in self.members(ti))
-                                           or not all(self.converts_exactly(m, self.dtn(ti)) for m in self.members(ti))):
+            if self.dtn(ti) not in DT or (self.cls[ti] == "coll" and any(m is None for m in self.members(ti))):
                 raise Skip()
-            res, err = self.try_real(lambda: st[k])
+            for k in ks:
+                fi = S["frames"][k]
+                if self.dtn(fi) not in DT or not nice(self.full(fi)):
+                    raise Skip()
+                if st.data[k] is not self.objs[fi]:
+                    raise RuntimeError("storage frame bookkeeping of the harness is off")
+                # storage/base.py:286-293 (since /repo d0418b1): the template is copied as it is if it can hold
+                # the frame, otherwise converted to result_type(frame, template) - frames are never narrowed.
+                # The copy of a collection template converts the *members'* data to that dtype.
+                fdt, tdt = self.full(fi).dtype, self.full(ti).dtype
+                T = self.dtn(ti) if np.can_cast(fdt, tdt, casting="safe") else DTN.get(np.dtype(np.result_type(fdt, tdt)))
+                if T is None or (self.cls[ti] == "coll" and not all(self.converts_exactly(m, T) for m in self.members(ti))):
+                    raise Skip()
+            if what == "read":
+                res, err = self.try_real(lambda: [st[ks[0]]])
+            elif d["how"] == "slice":
+                res, err = self.try_real(lambda: st[slice(*d["sl"])])
+            elif d["how"] == "items":
+                res, err = self.try_real(lambda: [f for _, f in st.items()])
+            else:
+                res, err = self.try_real(lambda: list(st))
             if err is not None:
-                raise Unexpected(f"storage[k] failed unexpectedly: {err}")
-            if st.data[k] is not self.objs[fi]:
-                raise RuntimeError("storage frame bookkeeping of the harness is off")
-            self.model_ops.append({"op": "loadFrame", "t": ti, "f": fi})
-            return {"err": None, "new": [res], "fresh": [res]}
+                raise Unexpected(f"reading from the storage failed unexpectedly: {err}")
+            if not isinstance(res, list) or len(res) != len(ks):
+                raise Unexpected(f"reading {len(ks)} frames from the storage returned {type(res).__name__} of length "
+                                 f"{len(res) if isinstance(res, list) else '-'}")
+            for k in ks:
+                self.model_ops.append({"op": "loadFrame", "t": ti, "f": S["frames"][k]})
+            return {"err": None, "new": res, "fresh": res}
         raise Skip()
 
     # ---- running a script ------------------------------------------------------------------
@@ -1327,11 +1503,32 @@ BCS = ["auto_periodic_neumann", "auto_periodic_dirichlet", "auto_periodic_curvat
        {"value": -3}]
 
 
+def make_admissible(vals, cls, nfull):
+    """zero the entries of a flat value list (ncomp * nfull entries) that a spherically symmetric
+    vector/tensor field may not have (see `World.admissible`)"""
+    zero = [0.0, 0.0] if any(isinstance(v, list) for v in vals) else (0 if all(isinstance(v, int) for v in vals) else 0.0)
+    vals = list(vals)
+    if cls == "vector":
+        keep = {0}
+    else:
+        keep = {0, 4, 8}
+    for c in range(len(vals) // nfull):
+        if c not in keep:
+            vals[c * nfull:(c + 1) * nfull] = [zero] * nfull
+    if cls == "tensor":
+        vals[8 * nfull:9 * nfull] = vals[4 * nfull:5 * nfull]
+    return vals
+
+
 class Gen:
-    def __init__(self, rng, world, allow_jit=False):
+    def __init__(self, rng, world, numba_share=0.0, op_boost=1.0):
+        """numba_share: probability that a differential operator is applied with the numba backend
+        (compiled, or - in a NUMBA_DISABLE_JIT=1 interpreter - its Python source) instead of scipy;
+        op_boost: factor on the weight of operator applications"""
         self.rng, self.w = rng, world
         self.uid = 0
-        self.allow_jit = allow_jit
+        self.numba_share = numba_share
+        self.op_boost = op_boost
 
     def pick(self, pred=lambda i: True, recent=0.5):
         w, rng = self.w, self.rng
@@ -1361,8 +1558,8 @@ class Gen:
             ("ghost", 1.2 if nf else 0), ("component", 2.5 * crowd if nf else 0),
             ("mkColl", 4 * crowd if nf else 0), ("fromData", 0.5 * crowd), ("slice", 1.6 * crowd if ncoll else 0),
             ("append", 1.6 * crowd if ncoll else 0), ("copy", 2.2 * crowd if n else 0), ("deepcopy", 1.3 * crowd if n else 0), ("neg", 1 * crowd if n else 0),
-            ("binop", 4 * crowd if nf else 0), ("inplace", 4.5 if nf else 0), ("operator", 1.3 * crowd if nf else 0),
-            ("derived", 1.2 * crowd if nf else 0), ("storage", 2.2 * crowd if nf else 0),
+            ("binop", 4 * crowd if nf else 0), ("inplace", 4.5 if nf else 0), ("operator", 1.3 * crowd * self.op_boost if nf else 0),
+            ("derived", 1.2 * crowd if nf else 0), ("storage", (4.5 if w.storages else 1.5) * crowd if nf else 0),
             ("malformed", 1.6 if nf else 0),
         ]
         kinds, weights = zip(*table)
@@ -1388,6 +1585,9 @@ class Gen:
             kind = KIND[dt] if dt else rng.choice([0, 1, 1, 2])
             kind = rng.choice([kind] * 3 + list(range(kind + 1)))
             d["vals"] = gen_vals(rng, size, kind)
+            if w.gspecs[g][0] == "sph" and cls in ("vector", "tensor") and init != "scalar" and rng.random() < 0.7:
+                # fields the spherically symmetric operators accept (no angular components)
+                d["vals"] = make_admissible(d["vals"], cls, int(np.prod(full_shape(w.grids[g]))))
             if init == "full":
                 d["as_float"] = rng.random() < 0.7
         return d
@@ -1397,7 +1597,8 @@ class Gen:
         i = self.pick()
         if i is None:
             return None
-        how = rng.choice(["data", "data", "data_idx", "data_scalar", "full", "full_scalar", "setitem", "assign_field"])
+        how = rng.choice(["data", "data", "data_idx", "data_scalar", "full", "full_scalar", "setitem", "setitem", "assign_field",
+                          "comp_setitem"])
         d = {"k": "write", "h": self.name(i), "how": how}
         t = i
         if how == "setitem":
@@ -1406,9 +1607,23 @@ class Gen:
                 return None
             d["h"] = self.name(i)
             d["idx"] = rng.randrange(8)
+            d["by_label"] = rng.random() < 0.5
             t = w.members(i)[d["idx"] % len(w.objs[i].fields)]
             if t is None:
                 return None
+        if how == "comp_setitem":
+            i = self.pick(lambda j: w.cls[j] in ("vector", "tensor"))
+            if i is None:
+                return None
+            d["h"] = self.name(i)
+            d["c"] = rng.randrange(9)
+            d["by_name"] = rng.random() < 0.3
+            j = self.pick(lambda j: w.cls[j] == "scalar" and w.gid[j] == w.gid[i]) if rng.random() < 0.5 else None
+            if j is not None:
+                d["src"] = self.name(j)
+            else:
+                d["c_val"] = gen_scalar(rng, self.kind_for(i))
+            return d
         if how == "assign_field":
             j = self.pick(lambda j: w.cls[j] in ("scalar", w.cls[i]) and w.gid[j] == w.gid[i] and j != i)
             if j is None:
@@ -1564,11 +1779,15 @@ class Gen:
 
     def g_operator(self):
         w, rng = self.w, self.rng
-        i = self.pick(lambda j: w.cls[j] in ("scalar", "vector", "tensor"))
+        backend = "numba" if rng.random() < self.numba_share else "scipy"
+        cart = lambda j: w.gspecs[w.gid[j]][0] in ("unit", "cart")
+        i = self.pick(lambda j: w.cls[j] in ("scalar", "vector", "tensor") and w.admissible(j) and (backend == "numba" or cart(j)))
+        if i is None:
+            i = self.pick(lambda j: w.cls[j] in ("scalar", "vector", "tensor"))
         if i is None:
             return None
         d = {"k": "operator", "h": self.name(i), "which": rng.randrange(6), "bc": rng.choice(BCS[:3]),
-             "backend": "numba" if (self.allow_jit and rng.random() < 0.5) else "scipy", "out": None}
+             "backend": backend, "out": None}
         if rng.random() < 0.35:
             name, out_cls = World.OPERATORS[w.cls[i]][d["which"] % len(World.OPERATORS[w.cls[i]])]
             j = self.pick(lambda j: w.cls[j] == out_cls and w.gid[j] == w.gid[i] and j != i)
@@ -1594,12 +1813,19 @@ class Gen:
 
     def g_storage(self):
         w, rng = self.w, self.rng
-        if not w.storages or rng.random() < 0.25:
+        if not w.storages or rng.random() < 0.15:
             i = self.pick(lambda j: w.cls[j] != "raw")
             return None if i is None else {"k": "storage", "what": "start", "h": self.name(i)}
-        st = rng.choice(sorted(w.storages))
+        filled = sorted(k for k, S in w.storages.items() if S["frames"])
+        st = rng.choice(filled) if filled and rng.random() < 0.6 else rng.choice(sorted(w.storages))
         S = w.storages[st]
         if S["frames"] and rng.random() < 0.65:
+            if rng.random() < 0.25:
+                how = rng.choice(["slice", "iter", "items"])
+                d = {"k": "storage", "what": "read_many", "st": st, "how": how}
+                if how == "slice":
+                    d["sl"] = rng.choice([[None, None, None], [None, 2, None], [-2, None, None], [None, None, -1], [1, None, 2]])
+                return d
             return {"k": "storage", "what": "read", "st": st, "idx": rng.randrange(8)}
         ti = S["template"]
         i = self.pick(lambda j: w.cls[j] == w.cls[ti] and w.gid[j] == w.gid[ti] and w.dat(j).shape == w.dat(ti).shape)
@@ -1645,7 +1871,7 @@ class Gen:
         return {"k": "inplace", "a": self.name(a), "bop": rng.choice(["add", "mul", "sub"]), "v": gen_scalar(rng, k + 1)}
 
 
-def gen_history(rng, length, allow_jit=False, monitors=True):
+def gen_history(rng, length, numba_share=0.0, monitors=True, op_boost=1.0):
     gspecs = [gen_grid(rng)]
     if rng.random() < 0.3:
         # the second grid must be unequal AND incompatible in py-pde's sense (a UnitGrid equals the
@@ -1655,7 +1881,7 @@ def gen_history(rng, length, allow_jit=False, monitors=True):
         if (a.shape, a.axes_bounds) != (b.shape, b.axes_bounds):
             gspecs.append(g2)
     w = World(gspecs, monitors=monitors)
-    gen = Gen(rng, w, allow_jit)
+    gen = Gen(rng, w, numba_share, op_boost)
     tries = 0
     while len(w.script) < length and tries < 6 * length and w.unexpected is None:
         tries += 1
@@ -1702,6 +1928,9 @@ def compare(w, answer):
         if rec["dbad"]:
             return {"step": t, "what": "`data` arrays do not share memory although `_data_full` arrays do",
                     "model": None, "impl": rec["dbad"]}
+        if sorted(m.get("stale") or []) != rec["stale"]:
+            return {"step": t, "what": f"objects whose `data` is not a view of their current `_data_full` after {opname}",
+                    "model": sorted(m.get("stale") or []), "impl": rec["stale"]}
         extra = sorted(set(rec["changed"]) - set(ch))
         if extra:
             return {"step": t, "what": f"handles whose memory/values changed in the real code but not in the model after {opname}",
@@ -1735,11 +1964,50 @@ def diff_key(diff):
     return re.sub(r"\d+", "#", diff["what"])
 
 
+# ------------------------------------------------------------------------------------------
+# execution mode.  A history is executed either with numba's JIT compiler (what users run) or in an
+# interpreter started with NUMBA_DISABLE_JIT=1 (the Python source of the compiled functions: every
+# operator of the numba backend on every grid class without compilation cost, Python semantics of
+# `assert`).  The mode is part of the case; shrinking, the failing-input search and `--replay`
+# re-execute a case in a fresh interpreter of the recorded mode.
+def current_mode():
+    import numba
+    return {"jit": not bool(numba.config.DISABLE_JIT)}
+
+
+def mode_env(mode):
+    return {"NUMBA_DISABLE_JIT": "0" if mode.get("jit", True) else "1", "MALLOC_PERTURB_": "165"}
+
+
+def enter_mode(mode):
+    """to be called before `pde`/`numba` are imported in this interpreter"""
+    import sys
+    if "numba" not in sys.modules:
+        os.environ.update(mode_env(mode))
+    if current_mode()["jit"] != bool(mode.get("jit", True)):
+        raise RuntimeError(f"this interpreter runs numba with {current_mode()}, the case wants {mode}")
+
+
+def in_mode(func, args, mode, workdir=None):
+    """func(args) in a fresh interpreter of the given execution mode"""
+    from harness.common.isolated import run_one
+    from harness.common.lean import BrokenCheck
+    r = run_one("harness.c15", func, args, env=mode_env(mode), workdir=workdir)
+    if isinstance(r, str) and r.startswith("EXC:"):
+        raise BrokenCheck(f"harness.c15.{func} failed in mode {mode}: {r}")
+    return r
+
+
 def case_of(w):
-    return {"grids": w.gspecs, "script": w.script}
+    return {"grids": w.gspecs, "script": w.script, "mode": current_mode()}
+
+
+def case_mode(case):
+    return case.get("mode") or {"jit": True}
 
 
 def rebuild(case, monitors=True, script=None):
+    enter_mode(case_mode(case))
     w = World(case["grids"], monitors=monitors)
     return w.run_script(case["script"] if script is None else script)
 
@@ -1808,7 +2076,13 @@ def shrink(case, failing_many):
     return cur
 
 
-def shrink_monitor(case, what):
+def shrink_monitor(args):
+    """(case, what) -> (smaller case, its own failure record), both from ONE execution: the record
+    returned is the one the returned script produces.  If the shrunk script does not reproduce the
+    failure `what` (a flaky shrink) the original case is re-executed and returned; None as record
+    if even that does not reproduce.  Runs in an interpreter of the mode of the case."""
+    case, what = args
+
     def failing_many(cands):
         out = []
         for sc in cands:
@@ -1818,15 +2092,40 @@ def shrink_monitor(case, what):
             except Exception:  # noqa: BLE001
                 out.append(False)
         return out
-    w = rebuild(case, script=shrink(case, failing_many))
-    return {"grids": case["grids"], "script": w.script}, next((f for f in w.mfail if f["what"] == what), None)
+    for script in (shrink(case, failing_many), case["script"]):
+        w = rebuild(case, script=script)
+        ff = next((f for f in w.mfail if f["what"] == what), None)
+        if ff is not None:
+            return dict(case, script=w.script), ff
+    return case, None
 
 
-def shrink_disagreement(ctx, case, what_key):
+def model_diff(w, workdir):
+    """first difference between the real world `w` and the model replay of its operations"""
     from harness.common.lean import LeanBatch
+    b = LeanBatch(workdir)
+    b.add("c15.run", w.request())
+    diff = compare(w, b.run()[0])
+    if diff is None and w.unexpected is not None:
+        diff = {"step": len(w.steps), "what": "outcome of a valid operation", "model": "ok", "impl": w.unexpected}
+    return diff
+
+
+def sub_workdir():
+    d = os.path.join(os.environ["VERIF_WORKDIR"], f"c15s{os.getpid()}")
+    os.makedirs(d, exist_ok=True)
+    return d
+
+
+def shrink_disagreement(args):
+    """(case, kind of difference) -> (smaller case, its own difference); same contract as
+    `shrink_monitor`"""
+    from harness.common.lean import LeanBatch
+    case, what_key = args
+    workdir = sub_workdir()
 
     def failing_many(cands):
-        b = LeanBatch(ctx.workdir)
+        b = LeanBatch(workdir)
         ws = []
         for sc in cands:
             try:
@@ -1835,7 +2134,7 @@ def shrink_disagreement(ctx, case, what_key):
                 ws.append(w)
             except Exception:  # noqa: BLE001
                 ws.append(None)
-        ans = iter(b.run())
+        ans = iter(b.run()) if any(w is not None for w in ws) else iter(())
         out = []
         for w in ws:
             if w is None:
@@ -1844,10 +2143,16 @@ def shrink_disagreement(ctx, case, what_key):
             diff = compare(w, next(ans))
             out.append(diff is not None and diff_key(diff) == what_key)
         return out
-    w = rebuild(case, monitors=False, script=shrink(case, failing_many))
-    b = LeanBatch(ctx.workdir)
-    b.add("c15.run", w.request())
-    return {"grids": case["grids"], "script": w.script}, compare(w, b.run()[0])
+    for script in (shrink(case, failing_many), case["script"]):
+        w = rebuild(case, monitors=False, script=script)
+        diff = model_diff(w, workdir)
+        if diff is not None and diff_key(diff) == what_key:
+            return dict(case, script=w.script), plain(diff)
+    return case, None
+
+
+def plain(diff):
+    return {k: (v if isinstance(v, (str, int, type(None))) else str(v)[:2000]) for k, v in diff.items()}
 
 
 def summarize(case):
@@ -1863,31 +2168,37 @@ def summarize(case):
 def worker(args):
     """generate histories, execute them on the real code (monitors included), replay them on the
     model, compare; returns only picklable summaries (run in a fresh interpreter)"""
-    import collections
-    import os
     import random
     from harness.common.lean import LeanBatch
-    seed, n_hist, n_jit = args
+    seed, n_hist, n_numba, jit = args
+    enter_mode({"jit": jit})
     rng = random.Random(seed)
     workdir = os.path.join(os.environ["VERIF_WORKDIR"], f"c15w{os.getpid()}")
     os.makedirs(workdir, exist_ok=True)
     out = {"cases": [], "hists": collections.defaultdict(collections.Counter), "monitor_evals": 0,
            "mfails": [], "dis": []}
-    hist = lambda name, key: out["hists"][name].update([str(key)])
+    hist = lambda name, key, n=1: out["hists"][name].update({str(key): n})
     done = 0
     while done < n_hist:
         batch = LeanBatch(workdir)
         worlds = []
         for h in range(min(100, n_hist - done)):
-            w = gen_history(rng, rng.randint(5, 40), allow_jit=(done + h) < n_jit)
+            # compiled mode: the first `n_numba` histories of the worker use the compiled numba backend
+            # for half of their operators (1-7 s of compilation per operator and grid), the others
+            # scipy; source mode (NUMBA_DISABLE_JIT=1): the numba backend for most operators
+            compiled = jit and (done + h) < n_numba
+            share = (0.8 if compiled else 0.0) if jit else 0.7
+            w = gen_history(rng, rng.randint(5, 40), numba_share=share, op_boost=6.0 if compiled else 1.0)
             worlds.append(w)
             batch.add("c15.run", w.request())
         answers = batch.run()
         for w, ans in zip(worlds, answers):
             case = case_of(w)
-            out["cases"].append(({"grids": case["grids"], "ops": summarize(case)}, bool(w.write_seen and "alias" in w.flags)))
+            out["cases"].append(({"grids": case["grids"], "mode": case["mode"], "ops": summarize(case)},
+                                 bool(w.write_seen and "alias" in w.flags)))
             out["monitor_evals"] += w.n_monitor
             hist("history_length", len(w.script))
+            hist("execution_mode", "numba-jit" if jit else "NUMBA_DISABLE_JIT=1")
             hist("objects_at_end", min(len(w.objs) // 10 * 10, 90))
             for g in w.gspecs:
                 hist("grid", f"{g[0]}{len(g[1]) if g[0] == 'unit' else ''}")
@@ -1896,7 +2207,11 @@ def worker(args):
                                             if d["k"] in ("write", "storage", "derived", "binop", "inplace", "mkColl") else ""))
                 hist("outcome", rec["err"] or "ok")
                 if d["k"] == "operator":
-                    hist("operator_backend", d.get("backend"))
+                    gk = w.gspecs[w.gid[w.byname[tuple(d["h"])]]][0]
+                    hist("operator_backend", d.get("backend") + ("" if jit or d.get("backend") != "numba" else "(source)"))
+                    hist("operator_grid_class", f"{gk}:{w.cls[w.byname[tuple(d['h'])]]}:{d.get('backend')}")
+            for k, n in w.skips.items():
+                hist("proposals_not_applicable", k, n)
             for i in range(len(w.objs)):
                 hist("dtype", w.dtn(i))
                 hist("class", w.cls[i])
@@ -1910,10 +2225,19 @@ def worker(args):
             if diff is None and w.unexpected is not None:
                 diff = {"step": len(w.steps), "what": "outcome of a valid operation", "model": "ok", "impl": w.unexpected}
             if diff is not None:
-                out["dis"].append((case, {k: (v if isinstance(v, (str, int, type(None))) else str(v)[:2000]) for k, v in diff.items()}))
+                out["dis"].append((case, plain(diff)))
         done += len(worlds)
     out["hists"] = {k: dict(v) for k, v in out["hists"].items()}
     return out
+
+
+def failure_record(case, ff):
+    """the monitor-failure record of `ff`, which `case` itself produced"""
+    return {"leg": "monitor", "case": case,
+            "observed": {"failure": ff["what"], "at_operation": ff["step"], "detail": ff["detail"],
+                         "execution_mode": case_mode(case), "history": summarize(case)},
+            "expected": "the property statement holds after every operation",
+            "what": ff["what"].split(":")[-1].strip(), "key": finding_key(ff)}
 
 
 def run(ctx):
@@ -1921,11 +2245,15 @@ def run(ctx):
     procs = ctx.budget(8, 16)
     n_hist = ctx.budget(1600, 24000)
     per = -(-n_hist // procs)
-    # histories per worker whose differential operators run on the compiled (numba) backend; all
-    # others use the scipy backend (no compilation)
-    jobs = [(f"C15:{ctx.seed}:{ctx.rng.getrandbits(64)}:{k}", per, ctx.budget(4 if k < 2 else 0, 6))
-            for k in range(procs)]
-    results = run_many("harness.c15", "worker", jobs, procs=procs, workdir=ctx.workdir)
+    # first half of the workers: numba compiles (the mode users run); operators on the scipy backend
+    # except for 12 (thorough: 40) operator-heavy histories per worker that pay for compilation
+    # (0.2-1 s per operator and grid with a fresh cache).  Second half: interpreters
+    # started with NUMBA_DISABLE_JIT=1, operators mostly on the numba backend (all grid classes).
+    jobs = []
+    for k in range(procs):
+        jit = k < procs // 2
+        jobs.append((f"C15:{ctx.seed}:{ctx.rng.getrandbits(64)}:{k}", per, ctx.budget(12, 40) if jit else 0, jit))
+    results = run_many("harness.c15", "worker", jobs, procs=procs, workdir=ctx.workdir, env={"MALLOC_PERTURB_": "165"})
     mfails, dis = [], []
     for r in results:
         if isinstance(r, str):
@@ -1944,16 +2272,14 @@ def run(ctx):
     mfails.sort(key=lambda cf: len(cf[0]["script"]))
     shrunk = set()
     for case, f in mfails:
-        if f["what"] in shrunk:
-            small, ff = case, f
-        else:
+        small, ff = case, f
+        if f["what"] not in shrunk:
             shrunk.add(f["what"])
-            small, ff = shrink_monitor(case, f["what"])
-            ff = ff or f
-        ctx.monitor_fail("monitor", small, {"failure": ff["what"], "at_operation": ff["step"], "detail": ff["detail"],
-                                            "history": summarize(small)},
-                         "the property statement holds after every operation", ff["what"].split(":")[-1].strip(),
-                         key=finding_key(ff))
+            s2, f2 = in_mode("shrink_monitor", (case, f["what"]), case_mode(case), ctx.workdir)
+            if f2 is not None:      # (otherwise: not reproducible in a fresh interpreter - reported as found)
+                small, ff = s2, f2
+        rec = failure_record(small, ff)
+        ctx.monitor_fail(rec["leg"], rec["case"], rec["observed"], rec["expected"], rec["what"], key=rec["key"])
     # disagreements: shrink (at most three kinds), shortest first
     dis.sort(key=lambda cd: len(cd[0]["script"]))
     kinds = set()
@@ -1964,14 +2290,18 @@ def run(ctx):
                          diff["what"] + " | history: " + str(summarize(case))[:1500])
             continue
         kinds.add(key)
-        small, d2 = shrink_disagreement(ctx, case, key)
-        d2 = d2 or diff
+        small, d2 = in_mode("shrink_disagreement", (case, key), case_mode(case), ctx.workdir)
+        if d2 is None:
+            small, d2 = case, diff
         ctx.disagreements.insert(0, {"leg": "correspondence", "case": small, "model": str(d2.get("model"))[:2000],
                                      "impl": str(d2.get("impl"))[:2000],
                                      "note": d2["what"] + " | history: " + str(summarize(small))[:1500]})
 
 
 def finding_key(f):
+    if f["what"] == RELINK_DETACH:
+        return {"call_site": "FieldCollection.__init__", "argument": "copy_fields=False",
+                "symptom": "component-view-taken-earlier-detached-from-relinked-field"}
     if f["detail"].get("operation") == "deepcopy" and ("data is not the live view" in f["what"] or "member" in f["what"]
                                                       or "not seen through" in f["what"]):
         return {"call_site": "FieldBase.__setstate__", "symptom": "data-detached-from-data_full-after-pickle-or-deepcopy"}
@@ -1983,65 +2313,114 @@ def finding_key(f):
     return {"call_site": f["what"].split(":")[0]}
 
 
-def monitor_only(case):
-    w = rebuild(case)
-    return w.mfail
+def monitor_search(args):
+    """monitors alone on the given cases (in this interpreter's mode); first failure, shrunk"""
+    cases, = args
+    for c in cases:
+        try:
+            w = rebuild(c)
+        except Exception:  # noqa: BLE001
+            continue
+        if w.mfail:
+            small, ff = shrink_monitor((c, w.mfail[0]["what"]))
+            if ff is not None:
+                return failure_record(small, ff)
+    return None
+
+
+def fresh_search(args):
+    """a fresh sample of histories with the monitors alone"""
+    import random
+    seed, n, jit = args
+    enter_mode({"jit": jit})
+    rng = random.Random(seed)
+    for _ in range(n):
+        w = gen_history(rng, rng.randint(5, 40), numba_share=0.0 if jit else 0.7)
+        if w.mfail:
+            small, ff = shrink_monitor((case_of(w), w.mfail[0]["what"]))
+            if ff is not None:
+                return failure_record(small, ff)
+    return None
 
 
 def search(ctx, broken):
-    """failing-input search after a broken tie: the monitors alone on the disagreeing histories and
-    on a larger fresh sample"""
-    found = []
+    """failing-input search after a broken tie: the monitors alone on the disagreeing histories
+    (each in its recorded execution mode) and on a larger fresh sample in both modes"""
     for dmeta in broken:
         c = dmeta.get("case") if isinstance(dmeta, dict) else None
         if c and "script" in c:
-            for f in monitor_only(c):
-                small, ff = shrink_monitor(c, f["what"])
-                ff = ff or f
-                found.append({"leg": "monitor", "case": small, "observed": {"failure": ff["what"], "detail": ff["detail"], "history": summarize(small)},
-                              "expected": "the property statement holds after every operation", "what": ff["what"], "key": finding_key(ff)})
-                return found
-    rng = ctx.sub_rng("search")
-    for _ in range(ctx.budget(1500, 6000)):
-        w = gen_history(rng, rng.randint(5, 40))
-        if w.mfail:
-            f = w.mfail[0]
-            small, ff = shrink_monitor(case_of(w), f["what"])
-            ff = ff or f
-            found.append({"leg": "monitor", "case": small, "observed": {"failure": ff["what"], "detail": ff["detail"], "history": summarize(small)},
-                          "expected": "the property statement holds after every operation", "what": ff["what"], "key": finding_key(ff)})
-            return found
-    return found
+            rec = in_mode("monitor_search", ([c],), case_mode(c), ctx.workdir)
+            if rec is not None:
+                return [rec]
+    n = ctx.budget(1500, 6000)
+    for jit in (True, False):
+        rec = in_mode("fresh_search", (f"C15:{ctx.seed}:search:{jit}", n // 2, jit), {"jit": jit}, ctx.workdir)
+        if rec is not None:
+            return [rec]
+    return []
+
+
+def replay_case(args):
+    """re-execute one recorded history (fresh interpreter of the recorded mode): monitor failures,
+    difference to the model"""
+    case, = args
+    w = rebuild(case)
+    out = {"ops": summarize({"script": w.script}), "n_recorded": len(case["script"]), "mfail": w.mfail,
+           "mode": current_mode(), "skipped": dict(w.skips)}
+    try:
+        out["diff"] = model_diff(w, sub_workdir())
+        if out["diff"] is not None:
+            out["diff"] = plain(out["diff"])
+    except Exception as e:  # noqa: BLE001
+        out["diff_error"] = str(e)[:500]
+    return out
 
 
 def replay(ctx, rep):
-    """re-run the history of a replay file on the real code with all monitors; for a broken-tie
-    file also replay the model and print the first difference.  True = the property holds."""
-    from harness.common.lean import LeanBatch
-    cases = []
+    """Re-run the recorded case on the real code, in the recorded execution mode, and judge the
+    recorded symptom.
+
+    * failing-input file (`case` + `observed.failure`): False iff the monitor reports the recorded
+      failure again on this history (other monitor failures are printed, they are not what was
+      recorded);
+    * broken-tie file (`broken`: list of cases where model and code differed): False while model and
+      code still differ on one of the recorded histories;
+    * a file without an executable history cannot be replayed: says so and returns False."""
+    todo = []
     if isinstance(rep.get("case"), dict) and "script" in rep["case"]:
-        cases.append(rep["case"])
-    for b in rep.get("broken", []):
+        symptom = (rep.get("observed") or {}).get("failure") if isinstance(rep.get("observed"), dict) else None
+        todo.append(("failing-input", rep["case"], symptom))
+    for b in rep.get("broken", []) or []:
         if isinstance(b, dict) and isinstance(b.get("case"), dict) and "script" in b["case"]:
-            cases.append(b["case"])
-    if not cases:
-        print("this replay file carries no executable history")
-        return True
+            todo.append(("broken-tie", b["case"], b.get("note")))
+    if not todo:
+        print("this replay file carries no executable history (no `case.script`, no `broken[*].case.script`): "
+              "it cannot be replayed - REPLAY-FAIL by convention")
+        return False
     ok = True
-    for case in cases[:5]:
-        w = rebuild(case)
-        for d in summarize({"script": w.script}):
+    for kind, case, symptom in todo[:10]:
+        r = in_mode("replay_case", (case,), case_mode(case), ctx.workdir)
+        print(f"--- {kind}, execution mode {r['mode']}, {len(r['ops'])} of {r['n_recorded']} recorded operations applicable")
+        for d in r["ops"]:
             print("op:", d)
-        for f in w.mfail:
+        for f in r["mfail"]:
             print("monitor failure:", f)
-        if not w.mfail:
+        if not r["mfail"]:
             print("monitor: holds on this history")
-        ok = ok and not w.mfail
-        try:
-            b = LeanBatch(ctx.workdir)
-            b.add("c15.run", w.request())
-            diff = compare(w, b.run()[0])
-            print("model vs code:", "agree" if diff is None and w.unexpected is None else (diff or w.unexpected))
-        except Exception as e:  # noqa: BLE001
-            print("model replay not available:", e)
+        if "diff_error" in r:
+            print("model replay not available:", r["diff_error"])
+        else:
+            print("model vs code:", "agree" if r["diff"] is None else r["diff"])
+        if kind == "failing-input":
+            if symptom is None:
+                again = bool(r["mfail"])
+                print("the file records no symptom; judged by: any monitor failure ->", "fails" if again else "holds")
+            else:
+                again = any(f["what"] == symptom for f in r["mfail"])
+                print(f"recorded symptom {symptom!r}:", "reproduced" if again else "not reproduced")
+        else:
+            # (monitor failures on such a history are printed above; they are not what this file records)
+            again = r.get("diff") is not None or "diff_error" in r
+            print("recorded symptom (model != code on this history):", "still differs" if again else "agree again")
+        ok = ok and not again
     return ok
